@@ -25,38 +25,65 @@ def make_man_class():
             self.delivered = []  # dict per handle_event call
             self.pre = []        # dict per _handle_event entry
             self.suspend = []
-            self._depth = {}
+            self.suspend_map = {}  # event name -> seconds the client's handler suspends on every such event
+            self._stacks = {}
             self.resets = []     # (t_start, t_end, state/facade/spa/descriptors at return)
 
         async def _handle_event(self, event, **kwargs):
             task = asyncio.current_task()
             rec = {"t": self.world.clock.t, "event": event, "before": self._spa_state,
                    "facade_before": self._facade is not None, "task": task.get_name() if task else "?",
-                   "ix": len(self.pre), "after": None}
+                   "ix": len(self.pre), "delivered_state": None, "delivered_at_ix": None,
+                   "parent": None}
+            stack = self._stacks.setdefault(id(task), [])
+            if stack:
+                rec["parent"] = stack[-1]["ix"]
             self.pre.append(rec)
-            await super()._handle_event(event, **kwargs)
+            stack.append(rec)
+            try:
+                await super()._handle_event(event, **kwargs)
+            finally:
+                stack.pop()
 
         async def handle_event(self, event, **kwargs):
             ss = self._status_sensor
             task = asyncio.current_task()
+            stack = self._stacks.get(id(task), [])
+            if stack and stack[-1]["delivered_state"] is None:
+                stack[-1]["delivered_state"] = self._spa_state
+                stack[-1]["delivered_at_ix"] = len(self.pre)
             self.delivered.append({
                 "t": self.world.clock.t, "event": event, "state": self._spa_state,
                 "facade": self._facade is not None, "spa": self._spa is not None,
                 "spa_connected": bool(self._spa is not None and self._spa.is_connected),
                 "descriptors": self._spa_descriptors is not None,
                 "text": ss.state if ss is not None else None,
-                "task": task.get_name() if task else "?", "pre_ix": len(self.pre) - 1})
-            if self.suspend:
+                "task": task.get_name() if task else "?", "pre_ix": stack[-1]["ix"] if stack else None})
+            d = self.suspend_map.get(event.name, 0.0)
+            if not d and self.suspend:
                 d = self.suspend.pop(0)
-                if d > 0:
-                    await asyncio.sleep(d)
+            if d > 0:
+                await asyncio.sleep(d)
 
         async def async_reset(self):
             t0 = self.world.clock.t
-            await super().async_reset()
-            self.resets.append({"t0": t0, "t1": self.world.clock.t, "state": self._spa_state,
-                                "facade": self._facade is not None, "spa": self._spa is not None,
-                                "descriptors": self._spa_descriptors is not None})
+            task = asyncio.current_task()
+            # marker: a reset changes the state without raising an event of its own
+            self.pre.append({"t": t0, "event": None, "before": self._spa_state, "facade_before": self._facade is not None,
+                             "task": task.get_name() if task else "?", "ix": len(self.pre), "delivered_state": None,
+                             "delivered_at_ix": None, "parent": None})
+            completed = False
+            try:
+                await super().async_reset()
+                completed = True
+            finally:
+                self.pre.append({"t": self.world.clock.t, "event": None, "before": self._spa_state,
+                                 "facade_before": self._facade is not None, "task": (task.get_name() if task else "?") + ":reset-end",
+                                 "ix": len(self.pre), "delivered_state": None, "delivered_at_ix": None, "parent": None})
+                self.resets.append({"t0": t0, "t1": self.world.clock.t, "state": self._spa_state,
+                                    "facade": self._facade is not None, "spa": self._spa is not None,
+                                    "descriptors": self._spa_descriptors is not None, "completed": completed,
+                                    "task": task.get_name() if task else "?"})
 
     return RecMan
 
@@ -104,3 +131,103 @@ class Scenario:
     def sample(self):
         p = self.pump_task()
         self.samples.append((self.W.clock.t, self.man.spa_state, p is not None and not p.done()))
+
+
+# ------------------------------------------------------------------ shared scenario runner
+
+
+def run_scenario(case, *, recover_bound, mirror_wait=0.0, detect_bound=None, on_sample=None):
+    """phases + user actions + final healthy period; returns a record for the oracles"""
+    from geckolib import GeckoSpaState
+    from .runner import InvalidCase
+
+    jitter = [min(float(j), 0.05) for j in case.get("jitter", [])]
+    sc = Scenario(jitter=jitter, suspend=case.get("suspend"))
+    W, sim, peer = sc.W, sc.sim, sc.peer
+    Man = make_man_class()
+    rec = {"sc": sc, "overlap": False, "problems": [], "ok_at": None, "mirror": None, "detect_fail": None}
+
+    async def main(W):
+        async with Man(W, spa_identifier=SPA_ID_STR, spa_address=peer.addr[0], spa_name="Spa") as man:
+            sc.man = man
+            rec["man"] = man
+            man.suspend = list(case.get("suspend", []))
+            man.suspend_map = dict(case.get("suspend_map", {}))
+            t0 = W.clock.t
+            rec["t0"] = t0
+            actions = [(float(t), a) for t, a in case.get("actions", [])]
+            blackout_since = None
+            busy = (GeckoSpaState.LOCATING_SPAS, GeckoSpaState.CONNECTING, GeckoSpaState.LOCATED_SPAS)
+
+            async def tick():
+                nonlocal blackout_since
+                sc.sample()
+                if on_sample is not None:
+                    on_sample(sc, man)
+                now = W.clock.t
+                while actions and actions[0][0] <= now - t0:
+                    _, a = actions.pop(0)
+                    if man.spa_state in busy:
+                        rec["overlap"] = True
+                    if a == "reset":
+                        await man.async_reset()
+                    elif a == "setinfo":
+                        await man.async_set_spa_info(peer.addr[0], SPA_ID_STR, "Spa")
+                    else:
+                        raise InvalidCase(a)
+                if detect_bound is not None:
+                    if W.blackout and man.spa_state == GeckoSpaState.CONNECTED:
+                        if blackout_since is None:
+                            blackout_since = now
+                        elif now - blackout_since > detect_bound and rec["detect_fail"] is None:
+                            rec["detect_fail"] = now - blackout_since
+                    else:
+                        blackout_since = None
+
+            for kind, dur, arg in case["phases"]:
+                if kind not in ("healthy", "blackout", "rferr", "lossy"):
+                    raise InvalidCase(kind)
+                if kind != "healthy" and man.spa_state in busy + (GeckoSpaState.IDLE,):
+                    rec["overlap"] = True
+                sc.apply("healthy")
+                if kind != "healthy":
+                    sc.apply(kind, True if arg is None else arg)
+                    b = bytearray(sim.structure.status_block)
+                    b[300] = (b[300] + 1 + case.get("poke", 0)) & 0xFF
+                    sim.structure.set_status_block(bytes(b))
+                t_end = W.clock.t + float(dur)
+                while W.clock.t < t_end:
+                    await W.sleep(min(0.25, max(0.01, t_end - W.clock.t)))
+                    await tick()
+            sc.apply("healthy")
+            t_h = W.clock.t
+            rec["t_h"] = t_h
+            while W.clock.t - t_h < recover_bound + (actions[-1][0] if actions else 0):
+                await W.sleep(0.25)
+                await tick()
+                if not actions and man.spa_state == GeckoSpaState.CONNECTED and man.facade is not None:
+                    rec["ok_at"] = W.clock.t
+                    break
+            rec["t_end"] = W.clock.t
+            rec["final_state"] = man.spa_state
+            rec["final_spa"] = man._spa is not None
+            rec["final_facade"] = man.facade is not None
+            pump = sc.pump_task()
+            rec["pump_alive"] = pump is not None and not pump.done()
+            rec["pump_exc"] = pump.exception() if pump is not None and pump.done() and not pump.cancelled() else None
+            if rec["ok_at"] is not None and mirror_wait > 0:
+                rec["inside"] = True
+                if "mirror_fn" in rec:
+                    probs = ["?"]
+                    t_m = W.clock.t
+                    while probs and W.clock.t - t_m < mirror_wait:
+                        await W.sleep(5.0)
+                        if man.spa_state != GeckoSpaState.CONNECTED or man.facade is None:
+                            probs = [f"left CONNECTED again on a healthy network: {man.spa_state.name}"]
+                            break
+                        probs = rec["mirror_fn"](man, sim)
+                    rec["mirror"] = probs
+        rec["exited_at"] = W.clock.t
+
+    rec["main"] = main
+    return rec
